@@ -94,6 +94,11 @@ MEASURES = {
     "arenas": ("nsi_arenas_betweenness", {}),
     "arenas-all": ("nsi_arenas_betweenness", {"exclude_neighbors": False}),
     "arenas-twin": ("nsi_arenas_betweenness", {"stopping_mode": "twinness"}),
+    # both non-default options together (they travel to the slaves in one
+    # per-chunk dictionary)
+    "arenas-all-twin": ("nsi_arenas_betweenness",
+                        {"exclude_neighbors": False,
+                         "stopping_mode": "twinness"}),
 }
 
 _SERIAL = {}
